@@ -19,7 +19,13 @@ import (
 	"verifharness/internal/zoo"
 )
 
-const l5SQL = "SELECT &Row.* FROM t WHERE a IN ($Ints[:])"
+// two slice inputs: different argument shapes can have the same number of parameters
+const l5SQL = "SELECT &Row.* FROM t WHERE a IN ($Ints[:]) OR b IN ($Strs[:])"
+
+// l5Args builds the arguments of shape k (0..8): slice lengths (k/3, k%3).
+func l5Args(k int) (zoo.Ints, zoo.Strs) {
+	return make(zoo.Ints, (k%9)/3), make(zoo.Strs, k%3)
+}
 
 type l5Op struct {
 	Op    string `json:"op"` // newS newD run dropS dropD gc
@@ -49,7 +55,7 @@ func genL5(r *rng.R) []l5Op {
 		case x < 11 && len(liveS) > 0 && len(liveD) > 0:
 			shape := lastShape
 			if r.Chance(1, 2) {
-				shape = r.Intn(4)
+				shape = r.Pick9()
 			}
 			lastShape = shape
 			add(l5Op{Op: "run", S: liveS[r.Intn(len(liveS))], D: liveD[r.Intn(len(liveD))], Shape: shape})
@@ -59,7 +65,7 @@ func genL5(r *rng.R) []l5Op {
 			pendingQ = append(pendingQ, nQ)
 			shape := lastShape
 			if r.Chance(1, 3) {
-				shape = r.Intn(4)
+				shape = r.Pick9()
 			}
 			add(l5Op{Op: "mkq", Q: nQ, S: liveS[r.Intn(len(liveS))], D: liveD[r.Intn(len(liveD))], Shape: shape})
 		case x == 12 && len(pendingQ) > 0:
@@ -169,7 +175,15 @@ type l5Obs struct {
 	Panic       string   `json:"panic,omitempty"`
 }
 
-func shapeOfSQL(q string) int { return strings.Count(q, "@sqlair_") }
+// shapeOfSQL recovers the shape from the generated SQL: placeholders in the first and
+// in the second IN list.
+func shapeOfSQL(q string) int {
+	i := strings.Index(q, " OR b IN (")
+	if i < 0 {
+		return -1
+	}
+	return strings.Count(q[:i], "@sqlair_")*3 + strings.Count(q[i:], "@sqlair_")
+}
 
 func runL5Case(h []l5Op) (obs *l5Obs) {
 	obs = &l5Obs{Segs: []l5Seg{}, Pairs: [][3]int{}, Errors: []string{}, Execs: [][]any{}, NoStats: !hooksAvailable}
@@ -235,7 +249,7 @@ func runL5Case(h []l5Op) (obs *l5Obs) {
 	for _, op := range h {
 		switch op.Op {
 		case "newS":
-			s, err := sqlair.Prepare(l5SQL, Row{}, zoo.Ints{})
+			s, err := sqlair.Prepare(l5SQL, Row{}, zoo.Ints{}, zoo.Strs{})
 			if err != nil {
 				obs.Panic = "prepare: " + err.Error()
 				return obs
@@ -250,10 +264,10 @@ func runL5Case(h []l5Op) (obs *l5Obs) {
 			dbs = append(dbs, &l5DB{db: d, state: st, id: hookDBID(d)})
 			keep = append(keep, st)
 		case "run":
-			ints := make(zoo.Ints, op.Shape)
+			ints, strs := l5Args(op.Shape)
 			var rows []Row
 			ctx := context.WithValue(context.Background(), fakedrv.CtxKey{}, fmt.Sprintf("d%d-k%d", op.D, op.Shape))
-			err := dbs[op.D-1].db.Query(ctx, stmts[op.S-1], ints).GetAll(&rows)
+			err := dbs[op.D-1].db.Query(ctx, stmts[op.S-1], ints, strs).GetAll(&rows)
 			if err != nil && errText(err) != "noRows" {
 				obs.Errors = append(obs.Errors, err.Error())
 				if strings.Contains(err.Error(), "statement is closed") {
@@ -261,9 +275,9 @@ func runL5Case(h []l5Op) (obs *l5Obs) {
 				}
 			}
 		case "mkq":
-			ints := make(zoo.Ints, op.Shape)
+			ints, strs := l5Args(op.Shape)
 			ctx := context.WithValue(context.Background(), fakedrv.CtxKey{}, fmt.Sprintf("d%d-k%d", op.D, op.Shape))
-			queries[op.Q] = dbs[op.D-1].db.Query(ctx, stmts[op.S-1], ints)
+			queries[op.Q] = dbs[op.D-1].db.Query(ctx, stmts[op.S-1], ints, strs)
 		case "runq":
 			var rows []Row
 			q := queries[op.Q]
@@ -358,7 +372,7 @@ func runL5Conc(r *rng.R, threads, perThread int) (obs *l5ConcObs) {
 	nS, nD := 1+r.Intn(3), 1+r.Intn(2)
 	stmts := make([]*sqlair.Statement, nS)
 	for i := range stmts {
-		stmts[i], _ = sqlair.Prepare(l5SQL, Row{}, zoo.Ints{})
+		stmts[i], _ = sqlair.Prepare(l5SQL, Row{}, zoo.Ints{}, zoo.Strs{})
 	}
 	type dbT struct {
 		db    *sqlair.DB
@@ -387,9 +401,10 @@ func runL5Conc(r *rng.R, threads, perThread int) (obs *l5ConcObs) {
 			for i := 0; i < perThread; i++ {
 				s := stmts[tr.Intn(nS)]
 				di := tr.Intn(nD)
-				shape := tr.Intn(3)
+				shape := tr.Pick9()
 				ctx := context.WithValue(context.Background(), fakedrv.CtxKey{}, fmt.Sprintf("d%d-k%d", di+1, shape))
-				q := dbs[di].db.Query(ctx, s, make(zoo.Ints, shape))
+				ints, strs := l5Args(shape)
+				q := dbs[di].db.Query(ctx, s, ints, strs)
 				if tr.Chance(1, 4) {
 					runtime.GC()
 				}
